@@ -161,6 +161,8 @@ def dec_jobs(tier, mode, harness="c03_dec.c", tag="dec"):
     jobs = []
     for ks in KSS:
         for (a, m) in dec_shapes(tier):
+            if tier == "quick" and harness == "c03_call.c" and not ((a in (0, 5) and m in (0, 1, 3, 4, 5, 8)) or (a, m) in ((3, 17), (0, 33))):
+                continue            # the call-contract variant has no data-dependent paths: a thinner cross-section
             for inplace in (0, 1):
                 d = {"KS": ks, "MODE": mode, "ADLEN": a, "MLEN": m, "INPLACE": inplace}
                 if mode == "siv":
@@ -198,9 +200,15 @@ def checktag_jobs(tier):
                 facet="check_tag-real-code") for p in ps]
 
 
+def dec_align(jobs):
+    return align_variants(jobs, lambda j: (j.name.startswith("checktag-p") and j.shape.get("PLEN") in (1, 3, 4, 5, 8, 9, 12, 17, 32, 33)) or
+                          (j.name.startswith("dec-") and (j.defines["ADLEN"], j.defines["MLEN"]) in ((0, 4), (5, 8), (0, 5), (1, 9), (3, 17))))
+
+
 @prop("C03")
 def c03(tier):
     jobs = checktag_jobs(tier) + dec_jobs(tier, "aead") + dec_jobs(tier, "aead", "c03_call.c", "call") + short_jobs("aead")
+    jobs += dec_align(jobs)
     meta = {
         "functions": ["tinyjambu_aead_check_tag (real code, all 2^128 tag pairs per query)"] +
                      ["tinyjambu_%d_aead_decrypt" % k for k in KSS],
@@ -223,6 +231,7 @@ def c04(tier):
     for mode in ("aead", "siv"):
         jobs += dec_jobs(tier, mode)
         jobs += dec_jobs(tier, mode, "c03_call.c", "call")
+    jobs += dec_align(jobs)
     meta = {
         "functions": ["tinyjambu_aead_check_tag (real code)"] + ["tinyjambu_%d_%s_decrypt" % (k, mo) for k in KSS for mo in ("aead", "siv")],
         "units": ["src/backend/tinyjambu-util.c", "src/tinyjambu-{128,192,256}-{aead,siv}.c",
@@ -243,8 +252,8 @@ def c08(tier):
     jobs = []
     for ks in KSS:
         for (a, m) in aead_window(tier):
-            thin = (a in (0, 5)) if tier == "quick" else (a <= 17 and m <= 17 and a % 3 == 0) or m > 100
-            if tier == "quick" and a > 5 and m > 5:
+            thin = (a in (0, 5) and m < 10) if tier == "quick" else (a <= 17 and m <= 17 and a % 3 == 0) or m > 100
+            if tier == "quick" and a not in (0, 3, 5, 33, 64, 67, 130):
                 continue
             for alias in (0, 1, 2, 3):
                 if alias and not thin:
@@ -255,6 +264,7 @@ def c08(tier):
                                 timeout=300 if tier == "quick" else 900, facet="roundtrip-alias%d" % alias))
     jobs += dec_jobs(tier, "siv") + dec_jobs(tier, "siv", "c03_call.c", "call") + short_jobs("siv")
     jobs += [j for j in checktag_jobs(tier) if j.shape.get("PLEN", 0) <= 40]     # the shared verdict function, real code
+    jobs += dec_align(jobs)
     meta = {
         "functions": ["tinyjambu_%d_siv_encrypt" % k for k in KSS] + ["tinyjambu_%d_siv_decrypt" % k for k in KSS] +
                      ["tinyjambu_aead_check_tag"],
@@ -273,6 +283,8 @@ def c08(tier):
 @prop("C09")
 def c09(tier):
     jobs = conf_jobs(tier, "siv")
+    if tier == "quick":
+        jobs = [j for j in jobs if j.defines["ADLEN"] in (0, 1, 2, 3, 4, 5, 8, 33, 64, 67, 130)]
     jobs += align_variants(jobs, lambda j: (j.defines["ADLEN"], j.defines["MLEN"]) in ALIGN_SHAPES)
     shapes = [(a, m) for a in (0, 3) for m in range(1, 10)] if tier == "quick" else \
              [(a, m) for a in (0, 3, 8) for m in list(range(1, 18)) + [31, 32, 33, 64, 65, 130]]
@@ -281,7 +293,7 @@ def c09(tier):
             for v in (0, 1, 2):
                 jobs.append(Job("ks%d-%d-ad%d-m%d" % (v, ks, a, m), "c09_ks.c",
                                 {"KS": ks, "ADLEN": a, "MLEN": m, "VARIANT": v},
-                                aead_cbmc(ks, "siv"), aead_native(ks, "siv"), unwind=unwind_for(a, m, 32),
+                                aead_cbmc(ks, "siv"), aead_native(ks, "siv"), unwind=unwind_for(a, m, 32), backend="sat",
                                 timeout=300 if tier == "quick" else 900,
                                 facet=("determinism", "keystream-function-of-key-nonce4-tag", "keystream-depends-on-tag")[v]))
     meta = {
@@ -426,6 +438,9 @@ def c12(tier):
         jobs.append(cut2("hmac-stream-k%d-m%d-c%d" % (k, m, c1), "c12_hmac.c", {"VARIANT": 1, "KEYLEN": k, "MSGLEN": m, "C1": c1}, HMAC_SRC, "init/update/update/finalize", tier))
     for (k, m, pre) in [(32, 5, 3), (65, 2, 20), (0, 0, 1), (64, 17, 64)] + ([(200, 8, 5), (33, 33, 33)] if tier != "quick" else []):
         jobs.append(cut2("hmac-reinit-k%d-m%d-pre%d" % (k, m, pre), "c12_hmac.c", {"VARIANT": 2, "KEYLEN": k, "MSGLEN": m, "PRE": pre, "C1": m // 2}, HMAC_SRC, "reinit after a partial message", tier))
+    for (k, m) in ((32, 5), (64, 9), (65, 3), (100, 20)):
+        jobs.append(cut2("hmac-out-over-key-oneshot-k%d-m%d" % (k, m), "c12_hmac.c", {"VARIANT": 3, "KEYLEN": k, "MSGLEN": m}, HMAC_SRC, "MAC written over the key buffer (out == key)", tier))
+        jobs.append(cut2("hmac-out-over-key-stream-k%d-m%d" % (k, m), "c12_hmac.c", {"VARIANT": 4, "KEYLEN": k, "MSGLEN": m}, HMAC_SRC, "MAC written over the key buffer (out == key)", tier))
     jobs += align_variants(jobs, lambda j: j.name in ("hmac-oneshot-k32-m17", "hmac-oneshot-k65-m20", "hmac-stream-k64-m33-c16", "hmac-oneshot-k200-m9"), offsets=(1, 3))
     meta = {
         "functions": ["tinyjambu_hmac", "tinyjambu_hmac_init", "tinyjambu_hmac_reinit", "tinyjambu_hmac_update", "tinyjambu_hmac_finalize",
@@ -465,6 +480,10 @@ def c13(tier):
                 jobs.append(cut2("hkdf-step-n%d-posn%d-req%d" % (c, p, rq), "c13_hkdf.c",
                                  {"VARIANT": 2, "COUNTER": c, "POSN": p, "REQ": rq, "INFOLEN": 3 if (rq + p) % 2 else 0}, src,
                                  "inductive step of hkdf_expand", tier))
+    # requests of 256 bytes and more (8-bit length arithmetic), fold encoding + z3
+    for (c, p, rq) in ((2, 7, 256), (100, 31, 260), (254, 22, 257)) + (((2, 0, 512), (3, 16, 1024)) if tier != "quick" else ()):
+        jobs.append(cut2fold("hkdf-step-n%d-posn%d-req%d" % (c, p, rq), "c13_hkdf.c", {"VARIANT": 2, "COUNTER": c, "POSN": p, "REQ": rq, "INFOLEN": 3}, src,
+                             "inductive step of hkdf_expand, long request", tier, unwind=rq + 80, timeout=1500))
     for k in (0, 16, 65):
         jobs.append(cut2("hkdf-emptysalt-k%d" % k, "c13_hkdf.c", {"VARIANT": 4, "KEYLEN": k}, src, "empty salt == 32 zero bytes", tier))
     jobs.append(cut2("hkdf-wrapper-contract", "c13_hkdf.c", {"VARIANT": 5}, [x for x in []], "one-shot wrapper call contract (all lengths symbolic)", tier,
@@ -708,13 +727,27 @@ def c20(tier):
                 jobs.append(Job("clean-n%d-off%d-%s" % (n, off, cfg), "c20_erase.c", d, LIBC + CLEAN, CLEAN,
                                 backend="sat", unwind=n + 40, config=cfg, extra=extra, facet="tinyjambu_clean exact range (%s)" % cfg))
     jobs.append(Job("free-null", "c20_erase.c", {"VARIANT": 3}, free_srcs, free_nat, backend="sat", unwind=120, facet="free(NULL) no-op"))
+    if os.path.exists(os.path.join(D.VERIF, "e3", "ctcheck.py")):
+        # survives optimisation (clang IR): clean zeroes exactly its range, and every wipe the C sources contain is still executed
+        for opt in (("O2", "O3") if tier == "quick" else ("O0", "O1", "O2", "O3")):
+            for cfg in ("default", "volatile"):
+                for (n, off) in ((0, 0), (1, 1), (3, 0), (7, 1), (33, 3), (70, 5)):
+                    jobs.append(e3_job("ir-%s-clean-n%d-off%d-%s" % (opt, n, off, cfg), "clean", {"n": n, "off": off},
+                                       "clang IR %s: tinyjambu_clean exact range (%s)" % (opt, cfg), opt, config=cfg))
+            jobs.append(e3_job("ir-%s-wipes-hmac" % opt, "hmac", {"k": 65, "m": 20}, "clang IR %s: wipes survive" % opt, opt, wipes=True))
+            jobs.append(e3_job("ir-%s-wipes-hash-oneshot" % opt, "hash-oneshot", {"n": 33}, "clang IR %s: wipes survive" % opt, opt, wipes=True))
+            jobs.append(e3_job("ir-%s-wipes-hkdf" % opt, "hkdf", {"k": 16, "s": 16, "i": 3, "out": 40}, "clang IR %s: wipes survive" % opt, opt, wipes=True))
+            jobs.append(e3_job("ir-%s-wipes-pbkdf2" % opt, "pbkdf2", {"pw": 5, "s": 3, "out": 40, "count": 2}, "clang IR %s: wipes survive" % opt, opt, wipes=True))
+            jobs.append(e3_job("ir-%s-wipes-prng" % opt, "prng", {"size": 40, "ctr": 1, "limit": 32, "k": 32, "feed": 3}, "clang IR %s: wipes survive" % opt, opt, wipes=True))
+            jobs.append(e3_job("ir-%s-wipes-hmac-volatile" % opt, "hmac", {"k": 65, "m": 20}, "clang IR %s: wipes survive (volatile fallback)" % opt, opt, config="volatile", wipes=True))
     meta = {
         "functions": ["tinyjambu_clean", "tinyjambu_hash_free", "tinyjambu_hmac_free", "tinyjambu_hkdf_free", "tinyjambu_prng_free"],
         "units": ["src/backend/tinyjambu-clean.c", "src/tinyjambu-hash.c", "src/tinyjambu-hmac.c", "src/tinyjambu-hkdf.c", "src/tinyjambu-prng.c"],
         "bounds": "free: state objects of 56/56/72/96 arbitrary bytes (subsumes every history), all bytes zero afterwards; clean: sizes 0..70 x "
                   "offsets 0..7 (quick: a cross-section) inside a buffer with 8 guard bytes on each side, exactly the requested range zeroed; three "
                   "configurations of the primitive: HAVE_EXPLICIT_BZERO (host default), volatile-loop fallback (real loop), HAVE_MEMSET_S",
-        "outside": "survival of the stores under gcc / clang optimisation is decided on clang IR where the E3 facet is listed, otherwise outside; "
+        "outside": "gcc's optimiser (survival of the clearing is decided on clang -O2/-O3 IR by E3: tinyjambu_clean zeroes exactly its range in both "
+                   "configurations and the wiping calls of hmac / hash / hkdf / pbkdf2 / prng are still executed with the right object and size); "
                    "explicit_bzero / memset_s themselves are libc contracts (stubs)",
         "stubs": ["explicit_bzero, memset_s: zero exactly n bytes (documented contract)", "memcpy/memset byte loops",
                   "permutation UF (only linked, not reached)"],
@@ -862,11 +895,11 @@ def c06(tier):
 
     small = lambda n: bool(re.search(r"-ad[0-5]-m([0-9]|1[0-7])-", n)) or bool(re.search(r"-ad(8|16|17|33)-m(0|4|33)-", n))
     if tier == "quick":
-        small = lambda n: bool(re.search(r"-ad(0|1|4|5)-m[0-9]-alias[03]$", n))
+        small = lambda n: bool(re.search(r"-ad(0|5)-m[0-9]-alias[03]$", n)) or bool(re.search(r"-ad(1|4)-m(0|3|4|5)-alias0$", n))
     take("C01", small, "aead-")
-    take("C08", lambda n: n.startswith("rt-siv") and (bool(re.search(r"-ad(0|3|5)-m[0-9]-alias[03]$", n))), "siv-")
-    take("C03", lambda n: n.startswith("dec-") and bool(re.search(r"-ad(0|5)-m[0-9]-ip", n)) or n.startswith("short-") or n.startswith("checktag-p"), "aead-")
-    take("C08", lambda n: n.startswith("dec-siv") and bool(re.search(r"-ad(0|5)-m[0-9]-ip", n)) or n.startswith("short-"), "siv-")
+    take("C08", lambda n: n.startswith("rt-siv") and (bool(re.search(r"-ad(0|5)-m[0-9]-alias[03]$", n))), "siv-")
+    take("C03", lambda n: n.startswith("dec-") and bool(re.search(r"-ad(0|5)-m(0|1|3|4|5|8)-ip", n)) or n.startswith("short-") or n.startswith("checktag-p"), "aead-")
+    take("C08", lambda n: n.startswith("dec-siv") and bool(re.search(r"-ad(0|5)-m(0|1|3|4|5|8)-ip", n)) or n.startswith("short-"), "siv-")
     take("C10", lambda n: bool(re.search(r"hash-n([0-9]|1[5-9]|3[1-3]|4[78]|6[3-5])$", n)) or "split" in n or "oneshot" in n, "")
     take("C11", lambda n: n.startswith("step-posn") and bool(re.search(r"posn(0|1|7|15)-len([0-9]|1[5-8]|3[1-3])$", n)) or n.startswith("finalize") or
          n.startswith("init") or n.startswith("reinit") or n.startswith("null-update"), "hash-")
@@ -878,6 +911,13 @@ def c06(tier):
     take("C18", lambda n: n.startswith("trng-"), "")
     take("C20", lambda n: n.startswith("free-") or bool(re.search(r"clean-n([0-9]|3[1-3]|70)-off[03]-default$", n)), "")
     take("C05", lambda n: n.startswith("c32-") and ("lemmaB-r1" in n or "lemmaB-r24" in n or "lemmaB-r5" in n), "perm-")
+    if os.path.exists(os.path.join(D.VERIF, "e3", "ctcheck.py")):
+        # optimised clang IR: bounds of every access, and the IR alignment of every load/store against caller buffers of alignment 1
+        for j in e3_ct_jobs(tier):
+            if re.search(r"-(ad0-m0|ad1-m2|ad5-m9|ad17-m33|p8|p31|n17-c1|n70-c15|oneshot-n33|k65-m20|k0-m0|out33|out100|out32-c3|size70|size1-|clean-n33)", j.name) or "perm" in j.name:
+                j.name = "o2-" + j.name
+                j.facet = "memory safety and access alignment on " + j.facet
+                picked.append(j)
     meta = {
         "functions": ["all 37 functions declared in src/TinyJAMBU.h (12 AEAD/SIV, 6 hash, 6 HMAC, 4 HKDF, 1 PBKDF2, 7 PRNG, tinyjambu_clean) plus "
                       "tinyjambu_trng_generate and the three portable permutations"],
@@ -890,9 +930,10 @@ def c06(tier):
                   "lemma posn {0,1,7,15} x len {0..9,15..18,31..33}; HMAC key lengths 0..200; HKDF / PBKDF2 / PRNG / TRNG / clean as in C13-C18, C20; "
                   "real permutation code at r in {1,5,24}.  'Outputs never depend on uninitialised memory': an uninitialised local is a fresh "
                   "nondeterministic value in CBMC, so every conformance query (output == deterministic model for all nondet) excludes it.",
-        "outside": "alignment (CBMC's memory model is alignment-agnostic: no query here can see a misaligned wide access; the C sources access "
-                   "caller buffers bytewise, see DESIGN); optimised objects and sanitizer builds (different technique); NULL + 0 pointer arithmetic "
-                   "and mem*(p, NULL, 0) on zero-length buffers are recorded as notes, not violations",
+        "outside": "alignment is decided two ways: E3 executes clang's -O2 IR with caller buffers of alignment 1 and fails on any load/store whose "
+                   "IR alignment is not implied (misaligned word access), and the -DVERIF_ALIGN=1..3 variants of C01/C02/C09/C10/C11/C12 run the C sources "
+                   "with every buffer at address k mod 4; gcc's objects and sanitizer builds are outside (different technique); NULL + 0 pointer "
+                   "arithmetic and mem*(p, NULL, 0) on zero-length buffers are recorded as notes, not violations",
         "stubs": AEAD_STUBS + CUT2_STUBS[1:2] + [FOLD_STUB], "assumptions": AEAD_ASSUME, "relies_on": [],
     }
     return picked, meta
@@ -910,9 +951,9 @@ def ct_job(name, defines, branch, plain, native, facet, tier, backend="sat", unw
 E3 = os.path.join(D.VERIF, "e3")
 
 
-def e3_job(name, api, shape, facet, opt="O2", config="default", wipes=False, vectorize=False, timeout=900):
+def e3_job(name, api, shape, facet, opt="O2", config="default", wipes=False, vectorize=False, timeout=400):
     cmd = ["python3-vt", os.path.join(E3, "ctcheck.py"), "--api", api, "--shape", ",".join("%s=%s" % kv for kv in shape.items()),
-           "--opt", opt, "--config", config, "--repo", D.REPO]
+           "--opt", opt, "--config", config, "--repo", D.REPO, "--timeout", "120"]
     if wipes:
         cmd.append("--expect-wipes")
     if vectorize:
@@ -967,14 +1008,14 @@ def c07(tier):
         jobs += [CmdJob("ir-selftest", ["python3-vt", os.path.join(E3, "ctcheck.py"), "--selftest", "--repo", D.REPO], timeout=1800,
                         facet="IR semantics validation: concrete execution of the IR on the repository's KAT vectors")]
         jobs += e3_ct_jobs(tier)
-    lens = [(0, 0), (1, 2), (3, 5), (4, 8), (5, 9), (7, 3)] if tier == "quick" else \
+    lens = [(0, 0), (3, 5), (5, 9)] if tier == "quick" else \
            [(a, m) for a in (0, 1, 2, 3, 4, 5, 8) for m in (0, 1, 2, 3, 4, 5, 9, 16, 17)]
     for ks in KSS:
         for mode in ("aead", "siv"):
             lib = D.aead_srcs(ks, mode) + LIBC
             nat = D.perm_real(ks)
             for (a, m) in lens:
-                if tier == "quick" and mode == "siv" and (a, m) not in ((0, 0), (3, 5), (5, 9)):
+                if tier == "quick" and mode == "siv" and (a, m) != (3, 5):
                     continue
                 for api, nm in ((1, "enc"), (2, "dec")):
                     jobs.append(ct_job("ct-%s-%s-%d-ad%d-m%d" % (mode, nm, ks, a, m), {"API": api, "KS": ks, "MODE": mode, "VL1": a, "VL2": m},
@@ -982,7 +1023,7 @@ def c07(tier):
     util = S("backend/tinyjambu-util.c")
     for p in ((0, 1, 8, 31) if tier == "quick" else (0, 1, 2, 7, 8, 9, 31, 32, 33, 64)):
         jobs.append(ct_job("ct-checktag-p%d" % p, {"API": 11, "VL1": p}, util + LIBC, [], [], "tag check and plaintext clearing (real code)", tier))
-    for (n, c1) in ((0, 0), (5, 2), (16, 16), (17, 1), (33, 20), (40, 0)) if tier == "quick" else \
+    for (n, c1) in ((5, 2), (17, 1), (33, 20)) if tier == "quick" else \
             [(n, c1) for n in (0, 1, 15, 16, 17, 31, 32, 33, 48, 70) for c1 in (0, n // 2, n)]:
         jobs.append(ct_job("ct-hash-n%d-c%d" % (n, c1), {"API": 12, "VL1": n, "VL2": c1}, HASH_REAL + CLEAN + LIBC, PERM_UF, D.perm_real(256),
                            "hash init/update/update/finalize/free", tier, backend="kissat"))
@@ -991,10 +1032,10 @@ def c07(tier):
     hm = S("tinyjambu-hmac.c") + CLEAN + LIBC
     for (k, m) in ((0, 0), (5, 9), (64, 3), (65, 20)) if tier == "quick" else [(k, m) for k in (0, 1, 32, 63, 64, 65, 100) for m in (0, 7, 33)]:
         jobs.append(ct_job("ct-hmac-k%d-m%d" % (k, m), {"API": 13, "VL1": k, "VL2": m}, hm, kdf_plain, kdf_nat, "HMAC one-shot", tier, backend="z3"))
-    for (k, sa, o) in ((16, 0, 33), (5, 16, 70)) if tier == "quick" else ((16, 0, 33), (5, 16, 70), (0, 0, 1), (65, 65, 100)):
+    for (k, sa, o) in ((16, 0, 33),) if tier == "quick" else ((16, 0, 33), (5, 16, 70), (0, 0, 1), (65, 65, 100)):
         jobs.append(ct_job("ct-hkdf-k%d-s%d-out%d" % (k, sa, o), {"API": 14, "VL1": k, "VL2": sa, "VL3": o}, hm + S("tinyjambu-hkdf.c"), kdf_plain, kdf_nat,
                            "HKDF extract + expand + free", tier, backend="z3", unwind=400))
-    for (pw, sa, o, c) in ((5, 3, 33, 2), (65, 0, 32, 3)) if tier == "quick" else ((5, 3, 33, 2), (65, 0, 32, 3), (0, 0, 64, 1), (64, 16, 40, 4)):
+    for (pw, sa, o, c) in ((5, 3, 33, 2),) if tier == "quick" else ((5, 3, 33, 2), (65, 0, 32, 3), (0, 0, 64, 1), (64, 16, 40, 4)):
         jobs.append(ct_job("ct-pbkdf2-pw%d-s%d-out%d-c%d" % (pw, sa, o, c), {"API": 15, "VL1": pw, "VL2": sa, "VL3": o, "COUNT": c},
                            hm + S("tinyjambu-pbkdf2.c"), kdf_plain, kdf_nat, "PBKDF2", tier, backend="z3", unwind=400))
     for cfg in ("default", "volatile"):
